@@ -343,6 +343,48 @@ func (w *hsWorld) garbledReplyRacesTick(nd *vNode, d *vDatagram, res *vResult) {
 	})
 }
 
+// retrust: node nd reloads its configuration with pki.blocklist naming the certificates of `blocked` (node names): from
+// now on these peers' certificates do not verify at nd, whatever state a handshake with them is in.
+func (w *hsWorld) retrust(nd *vNode, blocked []string) {
+	st := map[string]any{}
+	for k, v := range nd.Cfg.Settings {
+		st[k] = v
+	}
+	pki := map[string]any{}
+	if old, ok := st["pki"].(map[string]any); ok {
+		for k, v := range old {
+			pki[k] = v
+		}
+	}
+	fps := []string{}
+	for _, b := range blocked {
+		fp, err := w.Nodes[b].Ctrl.GetCertState().GetDefaultCertificate().Fingerprint()
+		if err != nil {
+			panic(err)
+		}
+		fps = append(fps, fp)
+	}
+	pki["blocklist"] = fps
+	st["pki"] = pki
+	raw, err := yaml.Marshal(st)
+	if err != nil {
+		panic(err)
+	}
+	if err := nd.Cfg.ReloadConfigString(string(raw)); err != nil {
+		panic(err)
+	}
+	synctest.Wait()
+	trusts := []string{}
+	for _, x := range []string{"A", "B", "M", "P", "S"} { // the peers of the common CA (X trusts only itself and is never reloaded)
+		if !strings.Contains(","+strings.Join(blocked, ",")+",", ","+x+",") {
+			trusts = append(trusts, x)
+		}
+	}
+	ev := map[string]any{"ev": "Retrust", "n": nd.Name, "trusts": trusts}
+	w.post(nd, ev)
+	w.log(ev)
+}
+
 // drain: nothing is delivered any more and nothing new is sent; every handshake that is still pending runs through its
 // remaining attempts and is abandoned.  The Quiet line states how many are pending afterwards.
 func (w *hsWorld) drain() {
@@ -561,6 +603,37 @@ func hsDrive(w *hsWorld, rnd *rand.Rand, steps, tr int, res *vResult) {
 			}
 		}
 	}
+	if profile == 0 && (tr/4)%2 == 0 {
+		// trust is withdrawn while a handshake is pending: A has sent stage 1 to B, B has answered, A reloads with B's
+		// certificate on the blocklist, then the answer arrives; later the entry is taken off the list again
+		w.tunSend(A, addr("10.128.0.2"), "rt-0")
+		var hs1, hs2 *vDatagram
+		for k, d := range w.inflight {
+			if d.To == B.UDP && d.H.Type == header.Handshake && d.H.MessageCounter == 1 {
+				hs1 = d
+				w.inflight = append(w.inflight[:k], w.inflight[k+1:]...)
+				break
+			}
+		}
+		if hs1 != nil {
+			w.deliver(hs1, B, hs1.From)
+			for k, d := range w.inflight {
+				if d.To == A.UDP && d.H.Type == header.Handshake && d.H.MessageCounter == 2 {
+					hs2 = d
+					w.inflight = append(w.inflight[:k], w.inflight[k+1:]...)
+					break
+				}
+			}
+		}
+		if hs2 != nil {
+			w.retrust(A, []string{"B"})
+			w.deliver(hs2, A, hs2.From)
+			res.Hit("retrust-prologue:answer-after-trust-withdrawn")
+			if rnd.Intn(2) == 0 {
+				w.retrust(A, nil)
+			}
+		}
+	}
 	if profile == 3 && (tr/4)%2 == 0 {
 		// an unauthentic copy of the answer is being handled when the retransmission timer of the same handshake fires
 		w.tunSend(A, addr("10.128.0.2"), "gr-0")
@@ -674,6 +747,21 @@ func hsDrive(w *hsWorld, rnd *rand.Rand, steps, tr int, res *vResult) {
 		case r < 82 && len(w.inflight) > 0:
 			k := rnd.Intn(len(w.inflight)) // loss
 			w.inflight = append(w.inflight[:k], w.inflight[k+1:]...)
+		case r < 85 && profile != 2:
+			// trust withdrawn from / given back to a peer at one of the honest nodes, at any moment
+			nd := []*vNode{A, B, M}[rnd.Intn(3)]
+			var blocked []string
+			if rnd.Intn(3) != 0 {
+				for {
+					x := []string{"A", "B", "M"}[rnd.Intn(3)]
+					if x != nd.Name {
+						blocked = []string{x}
+						break
+					}
+				}
+			}
+			w.retrust(nd, blocked)
+			res.Hit("retrust:random")
 		default:
 			w.tickOnce()
 		}
